@@ -113,7 +113,7 @@ PROPS = {
     },
     "C06": {
         "theorems": T("C06", ["facts_serialisable", "fact_types_distinct", "export_unconditional", "checkers_require_reader", "depends_only_on_direct_imports", "import_uniform", "gob_norm_invariant", "importer_as_declarer"]),
-        "suites": [("bin", {"mode": "drivers"}), ("prog", {"focus": "ANN:IKTMP", "n": 80, "xpkg": "1"})],
+        "suites": [("bin", {"mode": "drivers"}), ("prog", {"focus": "ANN:IKTMP,PKGO", "n": 80, "xpkg": "1"})],
         "binary": True, "table_diag": True,
         "assumptions": ["PARTIAL: gob's byte-level encoding, vetx file handling by cmd/go and export-data importers are exercised (both drivers, subsets, gob sanity check), not modelled",
                         "facts are modelled as the annotation lists without positions (no checker reads an imported position)"],
@@ -122,7 +122,7 @@ PROPS = {
     "C07": {
         "theorems": T("C07", ["scope_file", "scope_decl", "scope_stmt", "scope_stmt_none", "scope_line", "scope_line_after_decl", "inline_iff", "declIndex_spec",
                                "ignore_exact_report", "ignore_exact_detect", "marker_codes_upper", "raise_independent_of_comments", "ignoreOps_startsValid"]),
-        "suites": ["ignore", ("std", {"withmodel": "1", "focus": "IGN"})],
+        "suites": ["ignore", ("ignore", {"scan": "1", "n": 40}), ("std", {"withmodel": "1", "focus": "IGN"})],
         "assumptions": ["scope theorems assume MonoCut / NextCut (in preorder, once a node starts at/after the comment all later nodes do): decidable, true of go/ast trees for comments inside bodies, and the markers of every generated program are compared with the real ReadIgnoreAnnotations",
                         "'the following statement' is formalised as the first node in preorder that starts after the comment (the node with the smallest start position after it, outermost), in its whole extent",
                         "marker starts are >= 1 (PosValid: comment positions and line starts are real positions)"],
